@@ -14,6 +14,7 @@ from __future__ import annotations
 
 import copy
 import itertools
+import re
 from typing import Any
 from typing import Iterator
 
@@ -99,46 +100,68 @@ def apply(data: dict[str, Any], subset: tuple[Path, ...], mode: str) -> dict[str
     return out
 
 
-def resolve(data: dict[str, Any], path: Path) -> str:
-    """Is ``path`` (as written in a template) missing in ``data``?
+_DIGITS = re.compile(r"\s*[-+]?\d+\s*")
 
-    FOUND / MISSING only where that is unambiguous (docs/variables_and_drops.md "Paths to
-    variables"): a name that is not a render argument, a key that a dict does not have, a list
-    index out of range.  Everything else that does not plainly resolve (properties of scalars,
-    strings or nil, string keys on lists, the special names size/first/last) is UNSPEC.
+
+def lookup(data: dict[str, Any], path: Path) -> tuple[str, Any]:
+    """(status, value): is ``path`` (as written in a template) missing in ``data``?
+
+    FOUND / MISSING only where that is unambiguous (docs/variables_and_drops.md "Paths to variables": segments
+    are property names, array indexes or bracketed property names; "if a variable can not be resolved, an
+    instance of Undefined is used"): a name that is not a render argument, a key that a dict does not have, a
+    list index out of range, and a *word* (not size/first/last, not a digit string) applied to an array -- Python
+    lists have no named properties.  Everything else that does not plainly resolve (properties of scalars,
+    strings or nil, digit strings on lists, the special names size/first/last where they do not apply) is UNSPEC.
     """
     if not path or not isinstance(path[0], str):
-        return UNSPEC
+        return UNSPEC, None
     if path[0] not in data:
-        return MISSING
+        return MISSING, None
     obj = data[path[0]]
     for seg in path[1:]:
         if isinstance(obj, dict):
             if isinstance(seg, str) and seg in obj:
                 obj = obj[seg]
             elif isinstance(seg, str) and seg in SPECIAL:
-                return UNSPEC
+                return UNSPEC, None
             elif isinstance(seg, (str, int)) and not isinstance(seg, bool):
-                return MISSING
+                return MISSING, None
             else:
-                return UNSPEC
+                return UNSPEC, None
         elif isinstance(obj, list):
             if isinstance(seg, bool):
-                return UNSPEC
+                return UNSPEC, None
             if isinstance(seg, int):
                 if -len(obj) <= seg < len(obj):
                     obj = obj[seg]
                 else:
-                    return MISSING
+                    return MISSING, None
             elif seg == "size":
                 obj = len(obj)
             elif seg in ("first", "last") and obj:
                 obj = obj[0] if seg == "first" else obj[-1]
+            elif isinstance(seg, str) and seg not in SPECIAL and not _DIGITS.fullmatch(seg):
+                return MISSING, None
             else:
-                return UNSPEC
+                return UNSPEC, None
         else:
-            return UNSPEC
-    return FOUND
+            return UNSPEC, None
+    return FOUND, obj
+
+
+def resolve(data: dict[str, Any], path: Path) -> str:
+    """Status of a target path.  A segment ``("$", p)`` is a nested variable (``x[k]``): it is replaced by the
+    value of path ``p`` when that is FOUND and is a str or int; otherwise the whole target is UNSPEC."""
+    flat: list[Any] = []
+    for seg in path:
+        if isinstance(seg, (tuple, list)) and len(seg) == 2 and seg[0] == "$":
+            st, val = lookup(data, tuple(seg[1]))
+            if st != FOUND or isinstance(val, bool) or not isinstance(val, (str, int)):
+                return UNSPEC
+            flat.append(val)
+        else:
+            flat.append(seg)
+    return lookup(data, tuple(flat))[0]
 
 
 def shrinks_container_under(target: Path, subset: tuple[Path, ...]) -> bool:
